@@ -69,6 +69,8 @@ def distinct(labels):
 
 def same_label(a, b):
     if isinstance(a, np.datetime64) or isinstance(b, np.datetime64):
+        if isinstance(a, (str, np.str_)) or isinstance(b, (str, np.str_)):
+            return False      # the text of a date is not the date (NumPy would parse it for the comparison)
         try:
             return bool(np.datetime64(a) == np.datetime64(b))
         except Exception:
